@@ -53,8 +53,9 @@ PREFIXES = ["none", "abs-fs", "abs-bs", "abs-mixed", "unc-bs", "unc-fs", "drive-
 RULE = ("one case = one run of the CLI (`mpq extract`) under strace on an archive written by the independent writer lib/refmpq.py: 3 (quick) / 5 (thorough) hostile entry names "
         "(hashed verbatim, listed verbatim in (listfile)) + 4 benign names whose bytes are checked after the run. Names: an enumerated core (every separator style x `..` depth 1-6, "
         "mid-path `..`, sibling/canary targets, absolute path of the sandbox's abs/ dir spelled with /, \\, mixed, UNC-shaped \\\\verif\\scratch\\.. and //.., drive prefixes C:\\ C:/ C: , "
-        "`...`, `.. `, `.`, doubled separators, CON, 300-char and unicode components, trailing `..` / `.` / separator) + seeded random names from the grammar components x separators x prefixes, "
-        "depth 1-6, up to 150 (quick) / 3000 (thorough) names. Each archive is run under every configuration of {--preserve-paths on/off} x {no patch chain: whole archive / names on the "
+        "`...`, `.. `, `.`, doubled separators, CON, 300-char and unicode components, trailing `..` / `.` / separator; every prefix class again behind 1-2 leading `.` components whose separator is single, "
+        "doubled or of the other kind, e.g. `.//<abs>/x`, `.\\\\<abs>\\x`) + seeded random names from the grammar components x separators x prefixes, "
+        "depth 1-6, 0-2 leading `.` components, up to 200 (quick) / 3000 (thorough) names. Each archive is run under every configuration of {--preserve-paths on/off} x {no patch chain: whole archive / names on the "
         "command line x --threads 1/4 ; patch chain (--patch second archive overriding hostile and benign names and adding its own): whole / explicit}; output dir spelled relative or absolute, "
         "--skip-errors on/off, archive version 1/2 and zlib/none per file drawn from the seed. Oracle: snapshot diff of the whole outer tree + strace write-class calls resolved against the traced cwd; "
         "both must agree. A run is non-trivial iff the tool ran to an exit status and the leading benign files were found byte-identical in out/; distinct = distinct "
@@ -121,7 +122,10 @@ def realize(spec, absdir):
         pre = "C:\\" + ab.replace("/", "\\") + "\\"
     else:
         raise ValueError(p)
-    return pre + body
+    # 0-2 leading `.` components, each followed by its own separator (single, doubled or mixed), in front of whatever the prefix is:
+    # `.` + `/` + `/abs/path` is "current directory, empty component, absolute continuation"
+    lead = "".join("." + spec.get("lsep", "\\") for _ in range(spec.get("lead", 0)))
+    return lead + pre + body
 
 
 def sys_form(name):
@@ -134,6 +138,10 @@ def split_comps(name):
 
 def name_class(name):
     """Semantic class of a name for signatures: which feature makes it leave the output directory on this platform."""
+    m = re.match(r"^(?:\.[\\/])+(?=[\\/])", name)
+    if m:
+        # `.` component(s), then an empty component: what follows is root-anchored once the leading `./` is dropped
+        return "curdir+" + name_class(name[m.end():])
     if re.match(r"^[\\/]{2}", name):
         return "unc"
     if name.startswith("\\"):
@@ -178,7 +186,15 @@ def contained(name, box):
         return False
     if split_comps(name).count("..") > MAXUP:
         return False
-    forms = {sys_form(name), name, sys_form(name).lstrip("/"), name.lstrip("/")}
+    forms = set()
+    for f in (sys_form(name), name):
+        forms |= {f, f.lstrip("/")}
+        g = f
+        while g.startswith("./"):
+            g = g[2:]                                    # a tool that drops a leading "./" (once or repeatedly) ...
+            forms |= {g, g.lstrip("/")}
+        forms.add(re.sub(r"^(?:\./+)+", "", f))          # ... or together with the separators that follow
+        forms.add(re.sub(r"^(?:\.?/+)+", "", f))
     for f in forms:
         if f.startswith("/"):
             # root-anchored: must be spelled with this run's abs/ directory as its textual prefix, and stay inside the outer directory
@@ -258,6 +274,28 @@ def core_specs():
     add("none", [".."], "bs")
     add("none", ["."], "bs")
     add("none", ["@"], "bs")
+    # every prefix class behind 1-2 leading `.` components; the separator after the `.` single, doubled, or the other kind
+    def lead(n, lsep, prefix, comps, sep):
+        add(prefix, comps, sep)
+        S[-1]["lead"] = n
+        S[-1]["lsep"] = lsep
+    for p in ("abs-fs", "abs-bs", "abs-mixed", "unc-bs", "unc-fs"):
+        fs = p.endswith("fs")
+        nat, dbl, oth = ("/", "//", "\\") if fs else ("\\", "\\\\", "/")
+        sep = "fs" if fs else "bs"
+        lead(1, nat, p, ["@"], sep)
+        lead(2, nat, p, ["@"], sep)
+        lead(1, dbl, p, ["newdir", "@"], sep)
+        lead(1, oth, p, ["canary.txt"], sep)
+    for sep, nat, dbl in (("bs", "\\", "\\\\"), ("fs", "/", "//")):
+        lead(1, nat, "none", ["..", "@"], sep)
+        lead(2, nat, "none", ["..", "..", "@"], sep)
+        lead(1, nat, "none", ["a", "..", "..", "sibling", "@"], sep)
+        lead(1, nat, "none", ["sub", "@"], sep)
+        lead(1, dbl, "none", ["..", "@"], "dbs" if sep == "bs" else "dfs")
+    lead(1, "\\", "drive-bs", ["..", "..", "@"], "bs")
+    lead(1, "\\", "drive-abs", ["@"], "bs")
+    lead(1, "/", "drive-fs", ["@"], "fs")
     return S
 
 
@@ -276,13 +314,20 @@ def random_spec(rng):
         comps[-1] = "@" if rng.random() < 0.85 else "canary.txt"
     pr = rng.random()
     prefix = "none" if pr < 0.55 else rng.choice(PREFIXES[1:])
-    return {"prefix": prefix, "comps": comps, "sep": rng.choice(SEPSTYLES), "pat": rng.getrandbits(16)}
+    spec = {"prefix": prefix, "comps": comps, "sep": rng.choice(SEPSTYLES), "pat": rng.getrandbits(16)}
+    if rng.random() < 0.30:
+        spec["lead"] = rng.randint(1, 2)
+        spec["lsep"] = rng.choice(("\\", "/", "\\\\", "//", "\\/", "/\\"))
+        if len(spec["lsep"]) > 1 and not prefix.startswith(("abs", "unc")):
+            # `.` + empty component + X is root-anchored once the `./` is dropped: only the sandbox's own abs/ path may follow (contained() would drop anything else)
+            spec["prefix"] = rng.choice(("abs-fs", "abs-bs", "abs-mixed", "unc-bs", "unc-fs"))
+    return spec
 
 
 def plan(tier, seed):
     """Deterministic list of archive plans: each = list of (global index, spec)."""
     thorough = tier == "thorough"
-    total = 3000 if thorough else 150
+    total = 3000 if thorough else 200
     per = 5 if thorough else 3
     rng = random.Random(0xC11 * 1000003 + int(seed))
     specs = core_specs()
@@ -646,7 +691,8 @@ def build_case(group, cfg, box, seed, ai):
             dropped.append((gi, "duplicate-after-folding"))
             continue
         seen.add(k)
-        hostile.append({"gi": gi, "name": name, "cls": name_class(name), "prefix": spec["prefix"], "sep": spec["sep"], "up": up_depth(name), "in": "base"})
+        hostile.append({"gi": gi, "name": name, "cls": name_class(name), "prefix": ("dot%d%s+" % (spec["lead"], "x" if len(spec.get("lsep", "")) > 1 else "") if spec.get("lead") else "") + spec["prefix"],
+                        "sep": spec["sep"], "up": up_depth(name), "in": "base"})
     version = rng.choice((1, 2))
     lead = [b[0] for b in BENIGN if b[1] == "lead"]
     trail = [b[0] for b in BENIGN if b[1] == "trail"]
@@ -828,15 +874,22 @@ def run_case(cli, ai, group, cfg, scratch, seed, keep=False):
         completed = set()
         per_name = {}            # name -> {"ok": [...], "fail": [...]}
 
-        def full_text(h, raw):
-            """The path string the tool is expected to hand to the kernel for this name (Path::join semantics), textually."""
-            n = h["name"] if raw else sys_form(h["name"])
-            if not cfg["preserve"]:
-                comps = [c for c in n.split("/") if c not in ("", ".")]
-                n = comps[-1] if comps and comps[-1] != ".." else ""
-            return n if n.startswith("/") else case["out_arg"].rstrip("/") + "/" + n
+        def full_texts(h):
+            """The path strings the tool may hand to the kernel for this name (Path::join semantics), textually: first the expected one (separators
+            converted), then plausible deviations (name taken raw; leading `./` dropped once / repeatedly; leading separators dropped)."""
+            n0 = sys_form(h["name"])
+            once = n0[2:] if n0.startswith("./") else n0
+            forms = [n0, h["name"], once, re.sub(r"^(?:\./)+", "", n0), re.sub(r"^(?:\.?/+)+", "", n0)]
+            out = []
+            for n in forms:
+                if not cfg["preserve"]:
+                    comps = [c for c in n.split("/") if c not in ("", ".")]
+                    n = comps[-1] if comps and comps[-1] != ".." else ""
+                out.append(n if n.startswith("/") else case["out_arg"].rstrip("/") + "/" + n)
+            return out
 
-        texts = {h["name"]: (full_text(h, False), full_text(h, True)) for h in hs}
+        texts = {h["name"]: full_texts(h) for h in hs}
+        NFORMS = 5
 
         def first_live(cands):
             live = [h for h in cands if h["name"] not in completed]
@@ -847,8 +900,9 @@ def run_case(cli, ai, group, cfg, scratch, seed, keep=False):
             component-wise prefix of it (create_dir_all walks the parents); 2. the unique leaf token; 3. the resolved target."""
             if text is not None:
                 t = text.rstrip("/") or "/"
-                for form in (0, 1):
-                    c = [h for h in hs if texts[h["name"]][form].rstrip("/") == t or texts[h["name"]][form].startswith(t + "/")]
+                t = re.sub(r"^/+", "/", t)
+                for form in range(NFORMS):
+                    c = [h for h in hs if re.sub(r"^/+", "/", texts[h["name"]][form]).rstrip("/") == t or re.sub(r"^/+", "/", texts[h["name"]][form]).startswith(t + "/")]
                     if c:
                         return first_live(c)
             leaf = os.path.basename(path)
@@ -858,8 +912,20 @@ def run_case(cli, ai, group, cfg, scratch, seed, keep=False):
                         return h
             return first_live([h for h in hs if targets[h["name"]] == path or targets[h["name"]].startswith(path.rstrip("/") + "/")])
 
-        for ev, lex, real in outside:
-            h = attribute(lex, ev["text"])
+        def norm(t):
+            return re.sub(r"^/+", "/", t).rstrip("/") or "/"
+
+        for i, (ev, lex, real) in enumerate(outside):
+            h = None
+            if ev["name"] in ("mkdir", "mkdirat"):
+                # a directory made on the way to a file (create_dir_all, then the write): it belongs to the name of the open that follows it
+                for ev2, lex2, _r2 in outside[i + 1:]:
+                    if ev2["name"].startswith("open") or ev2["name"] == "creat":
+                        if norm(ev2["text"]).startswith(norm(ev["text"]).rstrip("/") + "/"):
+                            h = attribute(lex2, ev2["text"])
+                        break
+            if h is None:
+                h = attribute(lex, ev["text"])
             key = h["name"] if h else None
             slot = per_name.setdefault(key, {"ok": [], "fail": [], "h": h})
             slot["ok" if ev["ok"] else "fail"].append({"call": ev["name"], "errno": ev["errno"], "resolved": real, "line": ev["raw"][:300]})
